@@ -49,8 +49,11 @@ func (c *Ctx) ruleSeenFields(rule, fnKey, singularKey, readKey string) {
 		setDom := g.DominatedByNode(site, func(n ast.Node) bool { return nodeHasCallOn(info, n, setKey, isNums) != nil })
 		if !setDom {
 			found, _ := g.Forward(cfgPos{sp.B, sp.I + 1}, Search{
-				Target:  func(n ast.Node) bool { return containsCall(info, n, readKey) != nil },
-				Barrier: func(n ast.Node) bool { _, isRet := n.(*ast.ReturnStmt); return isRet || nodeHasCallOn(info, n, setKey, isNums) != nil },
+				Target: func(n ast.Node) bool { return containsCall(info, n, readKey) != nil },
+				Barrier: func(n ast.Node) bool {
+					_, isRet := n.(*ast.ReturnStmt)
+					return isRet || nodeHasCallOn(info, n, setKey, isNums) != nil
+				},
 			})
 			setDom = !found
 		}
@@ -78,7 +81,7 @@ func (c *Ctx) ruleSeenFields(rule, fnKey, singularKey, readKey string) {
 			"a path reaches the singular-field write for a oneof member without the `seenOneofs.Has(idx)` rejection: two members of one oneof would be accepted")
 		found2, _ := g.Forward(g.Entry(), Search{
 			TargetPos: &sp2,
-			Barrier: func(n ast.Node) bool { return nodeHasCallOn(info, n, setKey, isOneof) != nil },
+			Barrier:   func(n ast.Node) bool { return nodeHasCallOn(info, n, setKey, isOneof) != nil },
 			EdgeBarrier: func(b *cfgBlock, succ int) bool {
 				for _, a := range edgeAtoms(b, succ) {
 					if oneofNilEdge(info, a) {
